@@ -144,14 +144,14 @@ package nsqd
 //@   ensures[named] !old(has(t.channelMap, channelName)) ==> result0.name == channelName && result0.topicName == t.name
 //@   ensures[others] forall k string :: {t.channelMap[k]} k != channelName ==> (has(t.channelMap, k) <==> old(has(t.channelMap, k))) && t.channelMap[k] == old(t.channelMap[k])
 //@   ensures[values] forall k string :: {t.channelMap[k]} has(t.channelMap, k) ==> t.channelMap[k] != nil
-//@   modifies mapstore(map[string]*Channel), dqCalls, mapstore(map[MessageID]*Message), mapstore(map[MessageID]*pqueue.Item), Message.index, elems(*Message), elems(*pqueue.Item)
+//@   modifies mapstore(map[string]*Channel), dqCalls, kNotifies, kInitPQs, mapstore(map[MessageID]*Message), mapstore(map[MessageID]*pqueue.Item), Message.index, elems(*Message), elems(*pqueue.Item)
 
 // GetChannel: afterwards the channel exists in the topic (at release of the topic lock).
 //@ func (t *Topic) GetChannel(channelName string) *Channel
 //@   props C16
 //@   requires t != nil && t.nsqd != nil
 //@   ensures[exists] result != nil && atunlock(has(t.channelMap, channelName)) && atunlock(t.channelMap[channelName]) == result
-//@   modifies t.channelMap, mapstore(map[string]*Channel), dqCalls, mapstore(map[MessageID]*Message), mapstore(map[MessageID]*pqueue.Item), Message.index, elems(*Message), elems(*pqueue.Item)
+//@   modifies t.channelMap, mapstore(map[string]*Channel), dqCalls, kNotifies, kInitPQs, mapstore(map[MessageID]*Message), mapstore(map[MessageID]*pqueue.Item), Message.index, elems(*Message), elems(*pqueue.Item)
 //@   onreturn channelName == watchName && t == watchTopic ==> watchCreated := true
 
 // GetTopic.
@@ -176,7 +176,7 @@ package nsqd
 //@        (forall k int :: {luNames[k]} 0 <= k && k < len(luNames) && luNames[k] == watchName && !isEph(watchName) ==> startSawWatch)
 //@   modifies n.topicMap, mapstore(map[string]*Topic), Topic.channelMap, mapstore(map[string]*Channel),
 //@        luNames, luErr, luTopic, luCount, luAddrs, watchCreated, startCount, startedTopic, startSawWatch,
-//@        getTopicCalls, gotTopic, gotTopicName, gotTopicAuthSeq, gotTopicAuthOK, dqCalls,
+//@        getTopicCalls, gotTopic, gotTopicName, gotTopicAuthSeq, gotTopicAuthOK, dqCalls, kNotifies, kInitPQs,
 //@        mapstore(map[MessageID]*Message), mapstore(map[MessageID]*pqueue.Item), Message.index, elems(*Message), elems(*pqueue.Item)
 //   the name asked for and whether the most recent auth check had passed, for the publish handlers'
 //   contracts (ghosts declared in zz_contracts_publish_verif.go)
